@@ -5,7 +5,7 @@ CONSTANTS
   OpKinds = {"en", "dis", "rs", "enq", "blk", "unb", "sent"}
   MaxOps = 3
   MaxSeed = 2
-  MaxLk = 6
+  MaxLk = 3
   MaxGen = 2
   WithRefused = FALSE
   ExitCancelsAny = TRUE
@@ -15,6 +15,6 @@ CONSTANTS
   DisableKeepsLookups = TRUE
   BlockKeepsLookup = TRUE
   ClosedHandlerAppends = TRUE
-INVARIANTS TypeOK OldPointGone AnnounceIffEnabled OneSentPerEnqueue NeverSelf
+INVARIANTS TypeOK IndexIsLog OldPointGone AnnounceIffEnabled OneSentPerEnqueue NeverSelf
 VIEW view
 CHECK_DEADLOCK FALSE
